@@ -1,0 +1,23 @@
+//go:build verif
+
+// Contracts for govc (contract-based deductive verification, see /verif/DESIGN.md).
+// This file contains comments only; it is compiled only with the build tag
+// `verif` and adds no code to the package.
+
+package charset
+
+//@ func charset.trimLWS
+//@   ensures isSuffixView(result, in)
+//@   loop 1 invariant 0 <= firstNonWS && firstNonWS <= len(in)
+//@   loop 1 decreases len(in) - firstNonWS
+
+//@ func charset.FromPlain
+//@   loop 1 invariant -1 <= i && i < len(content) && sameSlice(content, old(content))
+//@   loop 1 decreases i + 1
+
+//@ func charset.fromMetaElement
+//@   loop 1 decreases len(s)
+
+//@ func charset.fromHTML
+//@   loop 1 terminates html.Tokenizer.Next reaches ErrorToken on a finite in-memory input
+//@   loop 2 terminates html.Tokenizer.TagAttr reports hasAttr=false after the last attribute of a tag
